@@ -268,14 +268,52 @@ def hist_f6b(rng):
     return h.line()
 
 
+def hist_shrink(rng):
+    """a segment created under a large interval, interval then DEcreased, reopen while the long
+    segment is the newest / the oldest / in the middle of the list: its persisted end must survive"""
+    zn, unit, base = pick_zone_rule(rng)
+    z = L.zone(zn)
+    multi = unit == "D" or zn in FIXED_POOL
+    big = rng.randint(2, 7) if multi else rng.choice([2, 3])
+    small = rng.randint(1, big - 1)
+    u = L.unit_ns(unit)
+    h = L.Hist("hist.shrink", zn, unit, big, BIG_TTL, base)
+    a, b = L.ref_cell(z, unit, big, base)
+    pos = rng.choice(["newest", "newest", "oldest", "middle"])
+    pts = [a, b - 1, a + (b - a) // 2, a + small * u, a + small * u - 1, b - u // 2]
+    if pos in ("oldest", "middle"):
+        h.create(b + rng.randrange(0, 2 * big * u))
+    if pos == "middle":
+        h.create(a - 1 - rng.randrange(0, 2 * big * u))
+    h.create(rng.choice(pts))
+    if rng.random() < 0.3:
+        h.add("reopen")
+    h.add("interval %d" % small)
+    if rng.random() < 0.3:
+        rand_select(rng, h, pts + [a - u, b + u])
+    h.add("reopen")
+    for _ in range(rng.randint(2, 5)):
+        r = rng.random()
+        if r < 0.5:
+            h.create(rng.choice(pts + [b, b + 1]))
+        elif r < 0.8:
+            rand_select(rng, h, pts + [a - u, b + u])
+        else:
+            h.add("reopen")
+    h.select(a - big * u, b + big * u, 1, 1)
+    return h.line()
+
+
 def hist_cases(rng, n):
     out = []
     for i in range(n):
         r = i % 20
-        if r < 8:
+        if r < 7:
             out.append(hist_order(rng))
-        elif r < 14:
+        elif r < 12:
             out.append(hist_legacy(rng))
+        elif r < 14:
+            out.append(hist_shrink(rng))
         elif r < 17:
             out.append(hist_tick(rng))
         elif r < 19:
@@ -320,7 +358,7 @@ class C06(vlib.Spec):
     rule = ("std.*: IntervalRule.Standard/NextTime on instants around every 2024-2026 transition (+-3 h, 15 min steps, +-1 ns) of "
             "NY/Lord_Howe/Apia/London plus fixed offsets, rules {HOUR,DAY} x 1..7, split into streams outside (std.fixed/day/hsafe) and "
             "inside (std.f6/f6b) the known classes; hist.*: 6-15 op histories on a real OpenTSDB: arrival orders past/future/boundary "
-            "(hist.order), legacy layouts on-grid/off-grid/with gaps (hist.legacy), rotation ticks (hist.tick), interval changes, "
+            "(hist.order), legacy layouts on-grid/off-grid/with gaps (hist.legacy), interval decrease + reopen with the long segment newest/oldest/middle (hist.shrink), rotation ticks (hist.tick), interval changes, "
             "reopen with probability 1/4, selects with all flag combinations; non-trivial = distinct case")
 
     def cases(self, rng, n):
